@@ -134,7 +134,8 @@ class UnitD(Unit):
                   closures=cl_url,
                   inserts=[{'pos': 'body_start', 'text': HINT('self.namespaces')},
                            {'pos': 'body_end', 'text': PUSH_HINT}])
-        cl_ns = [{'at': '|ns| ns.namespace == namespace', 'ensures': 'b == (ns.namespace@ == namespace@)', 'all': True}]
+        cl_ns = [{'at': '|ns| ns.namespace == namespace', 'ensures': 'b == (ns.namespace@ == namespace@)', 'all': True},
+                 {'at': '|ns| ns.namespace != namespace', 'ensures': 'b == (ns.namespace@ != namespace@)', 'all': True}]
         sw = child(im, 'fn', 'switch_to_target_namespace')
         sw_ins = []
         if 'self.current_target_namespace = Some(existing.clone());' in sw.body:
